@@ -4,7 +4,7 @@
    (an abstract set-based reference, independent of the ontology encoding). *)
 From stdpp Require Import gmap.
 From Coq Require Import NArith.
-From Synnax Require Import Common.Base Core.Ontology Core.Rbac.
+From Synnax Require Import Common.Base Core.Ontology Core.Rbac Core.RbacSpec.
 Local Open Scope N_scope.
 
 (* the configuration the correspondence runs the model in (= what /repo carries) *)
@@ -17,7 +17,8 @@ Definition raw_pol : Type := str * (list raw_id * list str * bool).
 Definition raw_role : Type := str * bool.
 Definition rview : Type := list raw_id * list raw_rel * list raw_pol * list raw_role.
 Definition raw_rp : Type := err * list str.
-Definition robs : Type := outcome * rview * rview * list raw_rp.
+(* the committed view is None when its dump is identical to the transaction view's *)
+Definition robs : Type := outcome * rview * option rview * list raw_rp.
 Definition case_t : Type := list raw_id * rview * list (rop * robs).
 
 Definition mk_id (r : raw_id) : id := Id r.1 r.2.
@@ -56,7 +57,8 @@ Definition rp_match (st : rst) (s : id) (o : raw_rp) : bool :=
 Definition rstep_match (subs : list id) (s : rsys) (out : outcome) (o : robs) : bool :=
   let '(out', v, cv, rps) := o in
   bool_decide (out = out') &&
-  rst_eqb (rcur s) (mk_rst v) && rst_eqb (rs_db s) (mk_rst cv) &&
+  rst_eqb (rcur s) (mk_rst v) &&
+  match cv with Some cv => rst_eqb (rs_db s) (mk_rst cv) | None => rst_eqb (rs_db s) (rcur s) end &&
   all2 (rp_match (rcur s)) subs rps.
 
 Fixpoint rtrace_match (subs : list id) (s : rsys) (tr : list (rop * robs)) : bool :=
@@ -71,83 +73,7 @@ Definition mismatch (c : case_t) : bool :=
   let '(subs, init, tr) := c in
   negb (rst_eqb (rs_db rinit) (mk_rst init) && rtrace_match (mk_id <$> subs) rinit tr).
 
-(* ---- the monitor: set-based reference configuration ---- *)
-Record acfg := ACfg {
-  a_subj : list id;                 (* defined subjects *)
-  a_roles : list str;               (* live roles *)
-  a_pols : list (str * policy);     (* live policies *)
-  a_assign : list (str * id);       (* role assigned to subject *)
-  a_attach : list (str * str) }.    (* policy attached to role *)
-
-Definition a_empty : acfg := ACfg [] [] [] [] [].
-
-Definition in_b {A} `{EqDecision A} (x : A) (l : list A) : bool := bool_decide (x ∈ l).
-
-(* the property's formula *)
-Definition permitted (c : acfg) (s : id) (act : str) (objs : list id) : bool :=
-  in_b s (a_subj c) &&
-  forallb (fun o =>
-    existsb (fun r =>
-      in_b (r, s) (a_assign c) &&
-      existsb (fun kp => in_b (r, kp.1) (a_attach c) && grants act o kp.2) (a_pols c))
-    (a_roles c)) objs.
-
-Fixpoint a_attach_all (c : acfg) (r : str) (ps : list str) : acfg :=
-  match ps with
-  | [] => c
-  | p :: ps' =>
-      if in_b r (a_roles c) && in_b p (fst <$> a_pols c)
-      then a_attach_all (ACfg (a_subj c) (a_roles c) (a_pols c) (a_assign c) ((r, p) :: a_attach c)) r ps'
-      else c
-  end.
-
-Definition a_apply (c : acfg) (o : rop) (ok : bool) : acfg :=
-  match o with
-  | RSubject s => if ok then ACfg (s :: a_subj c) (a_roles c) (a_pols c) (a_assign c) (a_attach c) else c
-  | RDelSubject s =>
-      ACfg (filter (fun x => x <> s) (a_subj c)) (a_roles c) (a_pols c)
-           (filter (fun rs => rs.2 <> s) (a_assign c)) (a_attach c)
-  | RCreateRole k _ _ =>
-      if ok then ACfg (a_subj c) (k :: a_roles c) (a_pols c) (a_assign c) (a_attach c) else c
-  | RDeleteRole k _ =>
-      if ok then ACfg (a_subj c) (filter (fun x => x <> k) (a_roles c)) (a_pols c)
-                      (filter (fun rs => rs.1 <> k) (a_assign c))
-                      (filter (fun rp => rp.1 <> k) (a_attach c))
-      else c
-  | RCreatePolicy k p _ =>
-      if ok then ACfg (a_subj c) (a_roles c) ((k, p) :: filter (fun kp => kp.1 <> k) (a_pols c))
-                      (a_assign c) (a_attach c)
-      else c
-  | RDeletePolicies ks =>
-      ACfg (a_subj c) (a_roles c) (filter (fun kp => kp.1 ∉ ks) (a_pols c)) (a_assign c)
-           (filter (fun rp => rp.2 ∉ ks) (a_attach c))
-  | RSetOnRole r ps => a_attach_all c r ps
-  | RAssign s r =>
-      if ok then ACfg (a_subj c) (a_roles c) (a_pols c) ((r, s) :: a_assign c) (a_attach c) else c
-  | RUnassign s r =>
-      ACfg (a_subj c) (a_roles c) (a_pols c) (filter (fun rs => rs <> (r, s)) (a_assign c)) (a_attach c)
-  | _ => c
-  end.
-
-Record asys := ASys { as_db : acfg; as_tx : option acfg }.
-Definition acur (s : asys) : acfg := default (as_db s) (as_tx s).
-
-Definition is_ok (out : outcome) : bool := bool_decide (out = OErr EOk).
-
-(* one observed step: returns (acceptable, next reference state) *)
-Definition a_step (s : asys) (o : rop) (out : outcome) : bool * asys :=
-  match o with
-  | RBegin => (true, match as_tx s with None => ASys (as_db s) (Some (as_db s)) | Some _ => s end)
-  | RCommit => (true, match as_tx s with Some c => ASys c None | None => s end)
-  | RAbort => (true, ASys (as_db s) None)
-  | REnforce sub act objs committed =>
-      let c := if committed then as_db s else acur s in
-      (bool_decide (bool_decide (out = OVerdict Allow) = permitted c sub act objs), s)
-  | _ =>
-      let c' := a_apply (acur s) o (is_ok out) in
-      (true, match as_tx s with Some _ => ASys (as_db s) (Some c') | None => ASys c' None end)
-  end.
-
+(* ---- the monitor: the set-based reference configuration of Core/RbacSpec.v ---- *)
 Fixpoint a_steps (s : asys) (tr : list (rop * robs)) : bool :=
   match tr with
   | [] => true
